@@ -24,6 +24,9 @@ def run(ctx):
     ctx.pipe([hc, "exsmooth", "30" if quick else "400", "13", "16"], "exsmcode", label="ex-smoother-code-level")
     # the parallel regions of these operators must be race-free, otherwise the result depends on the schedule
     ctx.schedule_conflicts(("ExtrapolatedSmootherGive", "ExtrapolatedSmootherTake"))
+    # the extrapolated smoother as the SOLVER reaches it (setup() -> Level::initializeExtrapolatedSmoothing -> Level::extrapolatedSmoothing)
+    hs = ctx.build_harness("h_solver")
+    ctx.pipe([hs, "levelops", "smooth", "24" if ctx.tier == "quick" else "200"], "smooth", label="smoothing-through-the-solver-object")
     ctx.assumptions += ["spec-level theorems C07.*: see C06; code-level theorems C07c.* are about GMGModel/ExSmootherCode.lean, tied to "
                         "ExtrapolatedSmootherTake by the stage ex-smoother-code-level (stored entries and temp bit for bit in double)",
                         "code-level theorems C07g.* are about GMGModel/ExSmootherGiveCode.lean (scatter assembly, scatter kernels, sequential sweep), tied to "
